@@ -249,7 +249,10 @@ func evalVerify(r *mon.Run, cn counter, h *honest, c Case) {
 	} else {
 		honestB, tag = h.pkB, "pubkey"
 	}
-	expected := bytes.Equal(c.B, honestB)
+	// A signature made for another message or key (or another key's public key) must be
+	// rejected by the statement itself; should it coincide with the honest bytes (a
+	// colliding message hash), accepting it is the violation, not the expected outcome.
+	expected := bytes.Equal(c.B, honestB) && !strings.HasPrefix(c.Class, "other-")
 	var accepted bool
 	if r.Guard("C14:"+tag, c, func() {
 		if c.Fam == "sig" {
@@ -288,8 +291,11 @@ func evalVerify(r *mon.Run, cn counter, h *honest, c Case) {
 	case !expected && accepted:
 		g := classGroup(c.Class)
 		cn.Count("accepted_nonhonest_"+tag+"_"+g, 1)
-		agg.add("C14:"+tag+":accepted-"+g,
-			fmt.Sprintf("VerifySig true for %d presented %s bytes (class %s, via %s) that differ from the honest encoding (%d bytes)", len(c.B), tag, c.Class, c.Path, len(honestB)), c, h.idx)
+		what := fmt.Sprintf("VerifySig true for %d presented %s bytes (class %s, via %s) that differ from the honest encoding (%d bytes)", len(c.B), tag, c.Class, c.Path, len(honestB))
+		if bytes.Equal(c.B, honestB) {
+			what = fmt.Sprintf("the %s made for another message/key (class %s) is byte-identical to the honest one and verifies (via %s)", tag, c.Class, c.Path)
+		}
+		agg.add("C14:"+tag+":accepted-"+g, what, c, h.idx)
 	default:
 		cn.Count("nonhonest_rejected", 1)
 	}
